@@ -301,6 +301,8 @@ theorem writeFile_read_back (sd sd3 : Side) (bat : List Nat) (content : Bytes) (
   have hblen := getBat_length sd bat hb
   unfold writeFile at hres
   rw [hb] at hres
+  dsimp only at hres
+  rw [protect_id bat h40 h41] at hres
   simp only [writeFileWith] at hres
   split at hres
   · cases hres
